@@ -16,6 +16,10 @@ Definition leaf : ty :=
   TNamed "Leaf" (TStruct [("A", t_int32); ("S", t_string); ("B", t_bytes); ("F", TScalar SF64)]).
 Definition plain : ty := TNamed "Pt" (TStruct [("X", TScalar SF64); ("N", t_int32); ("Ok", TScalar SBool)]).
 Definition window : ty := TNamed "Window" (TStruct [("Samples", TSlice t_int32); ("Width", TScalar (SInt KInt))]).
+Definition item : ty :=
+  TNamed "Item" (TStruct [("Name", t_string); ("Ref", TPtr plain); ("Tags", TSlice t_int32); ("Attr", TMap t_string t_int32);
+                          ("Note", TPtr t_string); ("Age", t_int32)]).
+Definition mid : ty := TNamed "Mid" (TStruct [("Inner", window); ("PW", TPtr window); ("N", t_int32)]).
 Definition kind : ty := TNamed "Kind" t_int32.            (* a named scalar *)
 Definition label : ty := TNamed "Label" t_string.         (* a named string scalar *)
 
@@ -137,7 +141,11 @@ Definition multi : list ty :=
    (* slices of PLAIN structs (no string, bytes or collection inside) *)
    TStruct [("Pts", TSlice plain); ("PtsPtr", TPtr (TSlice plain)); ("One", plain); ("PM", TMap t_string plain); ("PP", TSlice (TPtr plain))];
    (* nested structs without string/bytes whose LAST field has no length (flag propagation in the parsers) *)
-   TStruct [("Id", TScalar (SInt KUint64)); ("Win", window); ("WP", TPtr window); ("G", TNamed "Grid" (TStruct [("Cells", TMap t_int32 t_int32); ("W", t_int32)]))]].
+   TStruct [("Id", TScalar (SInt KUint64)); ("Win", window); ("WP", TPtr window); ("G", TNamed "Grid" (TStruct [("Cells", TMap t_int32 t_int32); ("W", t_int32)]))];
+   (* collections of structs that themselves hold pointers and collections (depth 3) *)
+   TStruct [("Items", TSlice item); ("PI", TSlice (TPtr item)); ("One", item)];
+   (* a collection two struct levels below the root, the middle struct having none of its own *)
+   TStruct [("Mid", mid); ("PM", TPtr mid)]].
 
 Definition rep_shapes : list ty :=
   dedup_ty (shapes1 rep_skinds ++ shapes2 [SString; SInt KInt32] [SInt KInt32; SString]).
